@@ -62,17 +62,12 @@ where
         let sbj_error = subject.clone();
         let sbj_complete = subject.clone();
 
-        // reserve the slot, then subscribe WITHOUT holding the lock: a source
-        // that emits synchronously may make the last subscriber leave at once,
-        // and that path needs the lock too
-        {
-          let mut slot = subscription.write().unwrap();
-          if slot.is_some() {
-            return;
-          }
-          *slot = Some(Subscription::new(|| {}, || true));
-        }
-        let connection = source.subscribe(
+        // the connection is in its slot before the source runs, and the
+        // source is subscribed WITHOUT holding the lock: a source that emits
+        // synchronously may make the last subscriber leave at once, and that
+        // path takes the connection out and unsubscribes it - the source then
+        // sees is_subscribed() == false before its next emission
+        let observer = Observer::new(
           move |x| {
             sbj_next.next(x);
           },
@@ -83,14 +78,21 @@ where
             sbj_complete.complete();
           },
         );
-        let mut slot = subscription.write().unwrap();
-        if slot.is_some() {
-          *slot = Some(connection);
-        } else {
-          // disconnected while connecting
-          drop(slot);
-          connection.unsubscribe();
+        {
+          let mut slot = subscription.write().unwrap();
+          if slot.is_some() {
+            return;
+          }
+          let unsub_observer = observer.clone();
+          let issub_observer = observer.clone();
+          *slot = Some(Subscription::new(
+            move || {
+              unsub_observer.unsubscribe();
+            },
+            move || issub_observer.is_subscribed(),
+          ));
         }
+        source.inner_subscribe(observer);
       }
     });
   }
